@@ -59,6 +59,8 @@ def gen_scenario(rng, focus):
             sig = rng.randrange(NSIG)
             period = rng.randint(1, 3)
             total = rng.choice([0, 1, 1, 2, 3])
+            if total and rng.random() < 0.12:
+                period = 0          # a legal period: every activation is due at once
             deferred = rng.random() < 0.6
             calls.append(("timed", conc_corr.KINDC[kind], sig, period, total, int(deferred)))
             if len(tracked) < max_timers:
